@@ -105,23 +105,34 @@ def jacobian(tf, x, domain=None):
 
 
 def _f64_noise_of_deriv(tf, x):
-    """Measured float64 rounding of the library's own Jacobian evaluation: 10 x |deriv(float64 x) - deriv(long double x)|.
+    """Measured float64 rounding of the library's own Jacobian evaluation: 10 x |deriv(float64 x) - deriv(long double x)|,
+    maximum over x and two points displaced by +-1e-7 of the distance to the nearest domain end (same conditioning,
+    different rounding pattern, so that one 'lucky' rounding cannot shrink the tolerance).
     ``tf.deriv`` is NOT used as the oracle; only the difference of its two precisions enters the tolerance (e.g.
     InverseRTransform(Knowles).deriv(19.0) loses 9 digits in 1 - exp(-19/R))."""
+    lo, hi = float(tf.domain[0]), float(tf.domain[1])
+    d = np.abs(x) + 0.0
+    if np.isfinite(lo):
+        d = np.abs(x - lo)
+    if np.isfinite(hi):
+        d = np.minimum(d, np.abs(hi - x)) if np.isfinite(lo) else np.abs(hi - x)
+    out = np.zeros(x.shape)
+    c = _chunk_for(tf)
     with np.errstate(all="ignore"):
-        try:
-            c = _chunk_for(tf)
-            if c is None:
-                a = np.asarray(tf.deriv(x), dtype=float).reshape(-1)
-                b = np.asarray(tf.deriv(x.astype(nd.LD))).reshape(-1).astype(float)
-            else:
-                a = nd.call_flat(tf.deriv, x, c).astype(float)
-                b = nd.call_flat(tf.deriv, x.astype(nd.LD), c).astype(float)
-            out = 10 * np.abs(a - b)
-        except Exception:  # noqa: BLE001
-            return np.zeros(x.size)
-    out = np.broadcast_to(out, x.shape).copy()
-    out[~np.isfinite(out)] = 0.0
+        for s in (0.0, 1e-7, -1e-7):
+            xx = x + s * d
+            try:
+                if c is None:
+                    a = np.asarray(tf.deriv(xx), dtype=float).reshape(-1)
+                    b = np.asarray(tf.deriv(xx.astype(nd.LD))).reshape(-1).astype(float)
+                else:
+                    a = nd.call_flat(tf.deriv, xx, c).astype(float)
+                    b = nd.call_flat(tf.deriv, xx.astype(nd.LD), c).astype(float)
+            except Exception:  # noqa: BLE001 - no long-double evaluation => no extra slack
+                continue
+            e = np.broadcast_to(10 * np.abs(a - b), x.shape).copy()
+            e[~np.isfinite(e)] = 0.0
+            out = np.maximum(out, e)
     return out
 
 
